@@ -86,7 +86,7 @@ def run_worker(mod, fn, env, timeout, path_timeout, tag):
         os.remove(stats_path)
     e = child_env(dict(env, VP_STATS=stats_path))
     t0 = time.time()
-    wall_cap = timeout * 2 + 60
+    wall_cap = timeout * 4 + 120
     try:
         p = subprocess.run([PY, "-m", "vp.worker", mod, fn, str(timeout), str(path_timeout)],
                            cwd=VERIF, env=e, capture_output=True, text=True, timeout=wall_cap)
